@@ -49,9 +49,11 @@ Qed.
 
 (** non-vacuity: a run that goes through the sweep (overlapping operands, a T-junction on a
     vertical edge), transformed by k = 3, (tx, ty) = (5, -2) *)
-Example C08_example_run :
-  exists R R',
-    boolean_operation release 1000 F2_A F2_B Union = Ok R /\ length R = 2%nat /\
-    boolean_operation release 1000 (sim_mpoly 3 5 (-2) F2_A) (sim_mpoly 3 5 (-2) F2_B) Union = Ok R' /\
-    length R' = 2%nat.
-Proof. vm_compute. eexists; eexists; repeat split. Qed.
+Definition C08_example_check : bool :=
+  match boolean_operation release 1000 F2_A F2_B Union,
+        boolean_operation release 1000 (sim_mpoly 3 5 (-2) F2_A) (sim_mpoly 3 5 (-2) F2_B) Union with
+  | Ok R, Ok R' => Nat.eqb (length R) 2 && Nat.eqb (length R') 2
+  | _, _ => false
+  end.
+Example C08_example_run : C08_example_check = true.
+Proof. vm_compute. reflexivity. Qed.
